@@ -1029,7 +1029,9 @@ def srs(
         raise ValueError("Q must be > 0.5 since SRS assumes underdamped equations.")
 
     (coeffunc, methfunc, rollfunc, ptr) = _process_inputs(stype, peak, rolloff, time)
-    freq = np.atleast_1d(freq)
+    # double precision whatever the caller passed: the parallel path
+    # gets float64 copies, so the serial path must use them too
+    freq = np.atleast_1d(freq).astype(float, copy=False)
     wn = 2 * pi * freq
     LF = len(freq)
     sig = np.atleast_1d(sig)
